@@ -24,6 +24,9 @@ type Check struct {
 	// (Go map iteration order inside the code under test).  Such a case counts as reproduced if it fails
 	// again, with the same signature, in at least one of 8 re-executions; every other case must fail in 3 of 3.
 	UnownedNondet func(sub string, raw json.RawMessage) bool
+	// SameFinding (optional) relaxes the replay gate's signature comparison: a memory-safety defect may show as a
+	// different panic/fault on re-execution (what lies outside the slice is not owned); default is equality.
+	SameFinding func(recorded, got string) bool
 	// Post (optional) runs in the parent after all shards finished, e.g. the free-running -race complement.
 	Post func(tier string) (extra map[string]interface{}, violations []mc.Violation)
 }
